@@ -344,7 +344,7 @@ func FamilyWorld(t *rapid.T, o Opts) World {
 // recursive (6: through a TTU, 7: through usersets); with the few object ids of
 // the generator, cycles in the stored tuples are the common case.
 func CycleWorld(t *rapid.T, o Opts) World {
-	fam := []int{6, 7, 2, 5, 3}[rapid.IntRange(0, 4).Draw(t, "cycleFamily")]
+	fam := []int{6, 6, 7, 7, 2, 5, 3}[rapid.IntRange(0, 6).Draw(t, "cycleFamily")]
 	w := familyWorld(t, o, fam)
 	if len(w.Model.Conds) > 0 || chance(t, "cycleRandomTuples", 25) {
 		return w
